@@ -2,6 +2,7 @@ package props
 
 import (
 	"io"
+	"math"
 	"sync"
 
 	"github.com/ipld/go-ipld-prime"
@@ -108,6 +109,11 @@ func selectorData() []namedNode {
 		{`"e+U+0301+xy"`, nStr("e\u0301xy")},
 		{`"U+1F600,a,U+0301,b,c"`, nStr("\U0001F600a\u0301bc")},
 		{`{a:"U+1F600,U+1F601,x"}`, nMap(kv{"a", nStr("\U0001F600\U0001F601x")})},
+		// integers beyond 2^53 inside lists and maps: a selector moves values, it does not judge them
+		{"[7,2^53,x]", nList(nInt(7), nInt(1<<53), nStr("x"))},
+		{"{a:2^53,b:1}", nMap(kv{"a", nInt(1 << 53)}, kv{"b", nInt(1)})},
+		{"[minInt64,[maxInt64]]", nList(nInt(math.MinInt64), nList(nInt(math.MaxInt64)))},
+		{"{a:[1,-(2^53)-1,3]}", nMap(kv{"a", nList(nInt(1), nInt(-(1<<53)-1), nInt(3))})},
 		// bytes whose node also offers a streaming reader (datamodel.LargeBytesNode) that delivers at most 3 bytes per Read
 		{"bytes(0..12)-in-blocks-of-3", blockBytes{Node: nBytes([]byte{0, 1, 2, 3, 4, 5, 6, 7, 8, 9, 10, 11, 12}), data: []byte{0, 1, 2, 3, 4, 5, 6, 7, 8, 9, 10, 11, 12}}},
 		{"{a:bytes(1..8)-in-blocks-of-3}", nMap(kv{"a", blockBytes{Node: nBytes([]byte{1, 2, 3, 4, 5, 6, 7, 8}), data: []byte{1, 2, 3, 4, 5, 6, 7, 8}}})},
